@@ -79,7 +79,7 @@ def run(v, tier, seed, replay):
         if tier == "quick" and hsh % 3 != 0:
             continue
         e1 = one[(tuple(e["cfg"]), tuple(e["hist"][0]))]
-        cases.append(dict(edges=[e1, e], mode=solver.MODES[hsh % len(solver.MODES)], t04=[0, -10, 4000][(hsh >> 4) % 3], move=(hsh >> 8) % 3, order=hsh))
+        cases.append(dict(edges=[e1, e], mode=solver.MODES[hsh % len(solver.MODES)], t04=(0 if e["hist"][0][2] else [0, -10, 4000][(hsh >> 4) % 3]), move=(hsh >> 8) % 3, order=hsh))
     res, fails = solver.flow_replay(exe, cases)
     if fails:
         raise Infra("; ".join(fails[:2]))
